@@ -104,13 +104,17 @@ struct Scenario {
     end_exec: bool,
     bwrite: usize,
     pos: usize,
+    /// what A sends right before MULTI: 0 nothing, 1 `WATCH w` again, 2 `UNWATCH`, 3 `WATCH k w`
+    pre_multi: usize,
 }
+
+const PRE_MULTI: &[&str] = &["", "WATCH w", "UNWATCH", "WATCH k w"];
 
 impl Scenario {
     fn json(&self) -> serde_json::Value {
         json!({"shards": self.shards, "watched_key_type": WATCH_TYPES[self.wtype].0, "watch": self.watch,
                "body": self.body.iter().map(|b| BODY_OPS[*b]).collect::<Vec<_>>(), "end": if self.end_exec { "EXEC" } else { "DISCARD" },
-               "b_write": B_WRITES[self.bwrite], "position": POSITIONS[self.pos]})
+               "b_write": B_WRITES[self.bwrite], "position": POSITIONS[self.pos], "pre_multi": PRE_MULTI[self.pre_multi]})
     }
     fn from_json(v: &serde_json::Value) -> Scenario {
         Scenario {
@@ -121,6 +125,7 @@ impl Scenario {
             end_exec: v["end"].as_str().unwrap() == "EXEC",
             bwrite: B_WRITES.iter().position(|x| *x == v["b_write"].as_str().unwrap()).unwrap(),
             pos: POSITIONS.iter().position(|x| *x == v["position"].as_str().unwrap()).unwrap(),
+            pre_multi: v["pre_multi"].as_str().map(|p| PRE_MULTI.iter().position(|x| *x == p).unwrap_or(0)).unwrap_or(0),
         }
     }
 }
@@ -164,6 +169,18 @@ fn run_scenario(sc: &Scenario) -> Result<String, (String, String)> {
                 at_watch = Some(w_value(&m.keyspace().await.map_err(mach)?));
             }
             bwrite!(1);
+            if sc.pre_multi > 0 {
+                let r = m.one(true, &l(PRE_MULTI[sc.pre_multi])).await.map_err(mach)?;
+                if resp::show(&r) != "+OK" {
+                    return Err(("watch-reply".into(), format!("{}: `{}` replied {}", sc.json(), PRE_MULTI[sc.pre_multi], resp::show(&r))));
+                }
+                if sc.pre_multi == 2 {
+                    at_watch = None; // UNWATCH: nothing is watched any more
+                } else if at_watch.is_none() {
+                    at_watch = Some(w_value(&m.keyspace().await.map_err(mach)?));
+                }
+                // re-WATCH of an already watched key keeps the FIRST snapshot (Redis: the key stays flagged)
+            }
             let r = m.one(true, &l("MULTI")).await.map_err(mach)?;
             if resp::show(&r) != "+OK" {
                 return Err(("multi-reply".into(), format!("{}: MULTI replied {}", sc.json(), resp::show(&r))));
@@ -229,12 +246,12 @@ fn run_scenario(sc: &Scenario) -> Result<String, (String, String)> {
                 unchanged("EXECABORT")?;
                 outcome = "execabort";
             } else {
-                let changed = sc.watch && at_watch.as_deref() != Some(at_exec.as_str());
+                let changed = at_watch.is_some() && at_watch.as_deref() != Some(at_exec.as_str());
                 let is_nil = matches!(reply, RespValue::Array(None) | RespValue::BulkString(None));
                 if changed {
                     if !is_nil {
                         return Err((
-                            format!("watch-missed type={}", WATCH_TYPES[sc.wtype].0),
+                            format!("watch-missed type={}{}", WATCH_TYPES[sc.wtype].0, if sc.pre_multi > 0 && matches!(WATCH_TYPES[sc.wtype].0, "missing" | "string" | "string+ttl") { format!(" pre-multi={}", PRE_MULTI[sc.pre_multi].split(' ').next().unwrap()) } else { String::new() }),
                             format!("{}: watched key w was {} at WATCH and {} at EXEC, yet EXEC replied {}", sc.json(), at_watch.clone().unwrap(), at_exec, resp::show(&reply)),
                         ));
                     }
@@ -243,7 +260,7 @@ fn run_scenario(sc: &Scenario) -> Result<String, (String, String)> {
                 } else {
                     if is_nil {
                         return Err((
-                            format!("watch-spurious type={}", WATCH_TYPES[sc.wtype].0),
+                            format!("watch-spurious type={}{}", WATCH_TYPES[sc.wtype].0, if sc.pre_multi > 0 && matches!(WATCH_TYPES[sc.wtype].0, "missing" | "string" | "string+ttl") { format!(" pre-multi={}", PRE_MULTI[sc.pre_multi].split(' ').next().unwrap()) } else { String::new() }),
                             format!("{}: watched key w unchanged ({}) yet EXEC replied nil", sc.json(), at_exec),
                         ));
                     }
@@ -414,7 +431,7 @@ fn main() {
         // (1) transaction bodies x EXEC/DISCARD, no watch, no second client
         for body in &body_set {
             for end_exec in [true, false] {
-                scenarios.push(Scenario { shards, wtype: 1, watch: false, body: body.clone(), end_exec, bwrite: 0, pos: 0 });
+                scenarios.push(Scenario { shards, wtype: 1, watch: false, body: body.clone(), end_exec, bwrite: 0, pos: 0, pre_multi: 0 });
             }
         }
         // (2) WATCH: key types x B's write x position, with small bodies
@@ -426,7 +443,12 @@ fn main() {
                         continue;
                     }
                     for body in &watch_bodies {
-                        scenarios.push(Scenario { shards, wtype, watch: true, body: body.clone(), end_exec: true, bwrite, pos });
+                        scenarios.push(Scenario { shards, wtype, watch: true, body: body.clone(), end_exec: true, bwrite, pos, pre_multi: 0 });
+                        if body.len() <= 1 {
+                            for pre_multi in 1..PRE_MULTI.len() {
+                                scenarios.push(Scenario { shards, wtype, watch: true, body: body.clone(), end_exec: true, bwrite, pos, pre_multi });
+                            }
+                        }
                     }
                 }
             }
